@@ -660,6 +660,14 @@ class Interpreter:
             elif isinstance(leaf, CompoundState) and leaf.initial:
                 return MicroStep(entered_states=[leaf.initial])
 
+        # Enter the children of an active orthogonal state that are not yet active (this
+        # happens when a state nested in one of its children was directly targeted)
+        for name in sorted(names, key=lambda s: (self._statechart.depth_for(s), s)):
+            if isinstance(self._statechart.state_for(name), OrthogonalState):
+                missing = sorted(set(self._statechart.children_for(name)).difference(names))
+                if missing:
+                    return MicroStep(entered_states=missing)
+
         return None
 
     def _apply_step(self, step: MicroStep) -> MicroStep:
